@@ -14,6 +14,8 @@ import Fbr.Lemmas.OvlRm
 import Fbr.Lemmas.OvlCreate
 import Fbr.Lemmas.OvlRmdirA
 import Fbr.Lemmas.OvlRmdirB
+import Fbr.Lemmas.OvlAttr
+import Fbr.Lemmas.OvlAttrOps
 import Fbr.Thm.C10
 
 namespace Fbr.Thm.C11
@@ -141,13 +143,48 @@ theorem copy_up_keeps_cache (s : St) (hc : Consistent s) (p : Path) :
   have := copyNodeUp_cons p s hc
   exact ⟨fun s' h => this.1 () s' h, fun e s' h => this.2 e s' h⟩
 
-/-- `copy_up_preserves`, at the level of what is written into the upper layer: the entry
+/-- `copy_up_preserves`, end to end: after a successful `copy_node_up(p)` of a node that is visible
+    at `p` (a file, symlink, special file or directory, in whatever lower layers, with any chain
+    of parent directories missing in the upper layer), the overlayfs union of the disk shows at
+    `p` AND AT EVERY ANCESTOR DIRECTORY of `p` exactly what it showed before — type, permission
+    bits, content, link target (`VNode.dropX` only forgets the `user.x` xattr value, which copy-up
+    does not carry over: known finding `C10:copy-up:xattr-lost`).  So a parent directory created
+    by `create_upper_dir` has its original mode.  The node is then backed by the upper layer,
+    the cache is still valid (hence live view = restart view = union, `C10.view_is_merge_of_consistent`)
+    and no lower layer has changed. -/
+theorem copy_up_preserves (s : St) (hc : Consistent s) (p : Path) (hvis : merge s.disk p ≠ .none)
+    (hmem : ∃ m, s.mem p = some m) (s' : St) (h : copyNodeUp p s = .ok () s') :
+    (∀ q, q.isSuffixOf p = true → (merge s'.disk q).dropX = (merge s.disk q).dropX) ∧
+      Consistent s' ∧ UpAt p s' ∧ s'.disk.lowers = s.disk.lowers := by
+  have hv : specStat s.disk p ≠ none := by
+    intro hn
+    apply hvis
+    rw [merge_eq_specStat s.disk hc.roots, hn]; rfl
+  obtain ⟨h1, h2, h3, h4⟩ := copyNodeUp_view hc hv hmem h
+  exact ⟨h4, h1, h2, h3⟩
+
+/-- "files first modified through the overlay show their complete prior content plus the
+    modification": after a successful OPEN(flags)+WRITE(off, data) on a file — wherever it lives,
+    copied up on the way if need be — the running instance AND a freshly started one show the
+    old mode and the old content changed as pwrite(2) changes it (after truncation with O_TRUNC,
+    at the end with O_APPEND); only the xattr of a copied-up file is lost (`dropX`). -/
+theorem modified_file_keeps_prior_content (s : St) (hc : Consistent s) (p : List Name) (fl : OFlag) (off : Nat)
+    (data : List Nat) (r : Reply) (s' : St) (h : runOp (.write p fl off data) s = .ok r s') :
+    ∃ w, w.dropX = (liveView s p).dropX ∧ liveView s' p = writeV fl.isTrunc (fl == .wa) off data w ∧
+      liveView (importFs s'.disk) p = writeV fl.isTrunc (fl == .wa) off data w := by
+  obtain ⟨hc', w, hw, hm⟩ := Fbr.Thm.C10.write_refines_plain_fs s hc p fl off data r s' h
+  refine ⟨w, by rw [consistent_view_is_merge s hc]; exact hw, ?_, ?_⟩
+  · rw [consistent_view_is_merge s' hc', hm]
+  · rw [restart_view_eq_live_of_consistent s' hc', consistent_view_is_merge s' hc', hm]
+
+/-- `copy_up_preserves`, at the level of what is written into the upper layer (the host calls):
+    the entry
     `copy_symlink_up` / `copy_special_up` / `copy_regfile_up` create has the type, the permission
     bits, the link target and (after the content write) the content of the lower original; only
     the `user.x` xattr is dropped (known finding `C10:copy-up:xattr-lost`).  Missing parents are
     made by `create_upper_dir` with `mkdir(name, st.st_mode)` — `.dir st.mode 0 0` in
     `createUpperDir`, whose effect on the cache is `copy_up_keeps_cache`. -/
-theorem copy_up_preserves (st : Node) (id : Nat) (L : Layer) (pp : Path) (n : Name) :
+theorem copy_up_writes (st : Node) (id : Nat) (L : Layer) (pp : Path) (n : Name) :
     (∀ t, st = .symlink t → (upperCopy st id) = .symlink t) ∧
     (∀ i m, st = .other i m → (upperCopy st id) = .other id m) ∧
     (∀ i m c x L1 L2, st = .file i m c x → hMk L pp n (upperCopy st id) = .ok L1 →
